@@ -85,6 +85,7 @@ type SrcTok struct {
 	Chain   string     // ul/ol/li/blockquote/pre ancestors, innermost first
 	P       *html.Node // nearest <p> ancestor
 	Table   *html.Node // outermost <table> ancestor
+	DataTbl *html.Node // outermost ancestor table that is a data table by construction (see isGenDataTable)
 	Figure  *html.Node // nearest <figure> ancestor
 	Tweet   bool       // inside blockquote.twitter-tweet
 	Text    *html.Node
@@ -102,7 +103,7 @@ func walkSource(doc *html.Node) *SrcInfo {
 	type ctx struct {
 		hidden, classB, tweet, title bool
 		chain                        []string
-		p, table, figure             *html.Node
+		p, table, figure, dtable     *html.Node
 	}
 	add := func(s string, c ctx, node *html.Node) {
 		for _, tk := range textTokens(s) {
@@ -111,7 +112,7 @@ func walkSource(doc *html.Node) *SrcInfo {
 				ch[i] = c.chain[len(c.chain)-1-i]
 			}
 			t := &SrcTok{Tok: tk, Idx: len(si.Toks), Hidden: c.hidden, ClassB: c.classB,
-				Chain: strings.Join(ch, ">"), P: c.p, Table: c.table, Figure: c.figure, Tweet: c.tweet, Text: node, InTitle: c.title}
+				Chain: strings.Join(ch, ">"), P: c.p, Table: c.table, DataTbl: c.dtable, Figure: c.figure, Tweet: c.tweet, Text: node, InTitle: c.title}
 			si.Toks = append(si.Toks, t)
 			if _, dup := si.ByTok[tk]; dup {
 				si.Dup = append(si.Dup, tk)
@@ -145,6 +146,9 @@ func walkSource(doc *html.Node) *SrcInfo {
 			case "table":
 				if c.table == nil {
 					c.table = n
+				}
+				if c.dtable == nil && isGenDataTable(n) {
+					c.dtable = n
 				}
 			case "figure":
 				c.figure = n
@@ -280,4 +284,17 @@ func tokenSet(toks []string) map[string]bool {
 		m[t] = true
 	}
 	return m
+}
+
+// isGenDataTable recognises the data tables the generators emit: a header row of <th> and no
+// nested table (the documented cascade classifies those as data; a table that contains another
+// table is layout and is walked like a container).
+func isGenDataTable(t *html.Node) bool {
+	if !isElem(t, "table") {
+		return false
+	}
+	if len(findAll(t, func(n *html.Node) bool { return n != t && isElem(n, "table") })) > 0 {
+		return false
+	}
+	return len(findAll(t, func(n *html.Node) bool { return isElem(n, "th") })) > 0
 }
